@@ -72,7 +72,8 @@ def defColl (fs : List String) : Option Coll :=
     | none => none
     | some d =>
       if kind == "counter" || kind == "intcounter" then
-        if !vars.isEmpty then none else some { descs := [d], fams := [mkFam d .counter [{ labels := d.constPairs, val := .counter val }]] }
+        -- a counter starts at +0.0 and the definition adds `val` to it (so a `val` of -0.0 leaves +0.0)
+        if !vars.isEmpty then none else some { descs := [d], fams := [mkFam d .counter [{ labels := d.constPairs, val := .counter (f64Add f64Zero val) }]] }
       else if kind == "gauge" || kind == "intgauge" || kind == "pulling" then
         if !vars.isEmpty then none else
         some { descs := [d], fams := [mkFam d .gauge [{ labels := if kind == "pulling" then [] else d.constPairs, val := .gauge val }]] }
